@@ -635,14 +635,24 @@ def cartposlos2geocentric(x, y, z, dx, dy, dz, ppc=None,
     # Here be dragons!
 
     # Broadcast all input variables to the same shape.  Atleast (1)
-    if(ppc is not None and za0 is not None and lat0 is not None and
-       aa0 is not None and lon0 is not None):
-        x, y, z, dx, dy, dz, ppc, lat0, lon0, za0, aa0 = _broadcast(
-            x, y, z, dx, dy, dz, ppc, lat0, lon0, za0, aa0)
-    elif ppc is not None:
-        x, y, z, dx, dy, dz, ppc = _broadcast(x, y, z, dx, dy, dz, ppc)
-    else:
-        x, y, z, dx, dy, dz = _broadcast(x, y, z, dx, dy, dz)
+    hints = (za0 is not None and lat0 is not None and
+             aa0 is not None and lon0 is not None)
+    args = [x, y, z, dx, dy, dz]
+    if ppc is not None:
+        args.append(ppc)
+    if hints:
+        args.extend([lat0, lon0, za0, aa0])
+    args = _broadcast(*args)
+
+    # The calculations below select elements with boolean masks and expect
+    # 1-dimensional arrays, the original shape is restored at the end:
+    shape = args[0].shape
+    args = [arg.ravel() for arg in args]
+    x, y, z, dx, dy, dz = args[:6]
+    if ppc is not None:
+        ppc = args[6]
+    if hints:
+        lat0, lon0, za0, aa0 = args[-4:]
 
     r, lat, lon = cart2geocentric(x, y, z, lat0, lon0, za0, aa0)
 
@@ -717,7 +727,9 @@ def cartposlos2geocentric(x, y, z, dx, dy, dz, ppc=None,
 
         aa[np.logical_and(~fix, dlon < 0)] *= -1
 
-    return r, lat, lon, za, aa
+    return tuple(
+        array.reshape(shape) for array in (r, lat, lon, za, aa)
+    )
 
 
 def geocentricposlos2cart(r, lat, lon, za, aa):
@@ -766,6 +778,11 @@ def geocentricposlos2cart(r, lat, lon, za, aa):
     """
 
     r, lat, lon, za, aa = _broadcast(r, lat, lon, za, aa)
+
+    # The calculations below select elements with boolean masks and expect
+    # 1-dimensional arrays, the original shape is restored at the end:
+    shape = r.shape
+    r, lat, lon, za, aa = (array.ravel() for array in (r, lat, lon, za, aa))
 
     if any(r == 0):
         raise Exception("This function is not handling the case of r = 0.")
@@ -829,7 +846,9 @@ def geocentricposlos2cart(r, lat, lon, za, aa):
         dy[not_pole] = (coslat * sinlon * dr - sinlat * sinlon * dlat +
                         coslat * coslon * dlon)
 
-    return x, y, z, dx, dy, dz
+    return tuple(
+        array.reshape(shape) for array in (x, y, z, dx, dy, dz)
+    )
 
 
 def get_ellipsoid_semiminor_axis(ellipsoid):
